@@ -13,11 +13,39 @@ from .monitors import StdMonitor, oracle_ll
 from .tinymodels import Guarded, KillSignal, make
 
 
+def trainable_normal(dims):
+    """A user-supplied base distribution given as an INSTANCE with trainable parameters."""
+    import torch
+    from glasflow.nflows.distributions import Distribution
+
+    class TrainableNormal(Distribution):
+        def __init__(self, shape):
+            super().__init__()
+            self._shape = torch.Size(shape)
+            self.loc = torch.nn.Parameter(torch.zeros(1, *shape))
+            self.log_scale = torch.nn.Parameter(torch.zeros(1, *shape))
+
+        def _log_prob(self, inputs, context):
+            z = (inputs - self.loc) * torch.exp(-self.log_scale)
+            return -0.5 * (z**2).sum(dim=1) - self.log_scale.sum() - 0.5 * self._shape[0] * np.log(2 * np.pi)
+
+        def _sample(self, num_samples, context):
+            eps = torch.randn(num_samples, *self._shape, device=self.loc.device)
+            return self.loc + torch.exp(self.log_scale) * eps
+
+    return TrainableNormal([dims])
+
+
 def clone_kwargs(kw):
-    """Deep copy of sampler keyword arguments; live pools are shared, not copied."""
+    """Deep copy of sampler keyword arguments; live pools are shared, not copied.  Configurations are
+    plain data (they are keys and replay files): the marker "<trainable-normal-instance:d>" stands
+    for a fresh object built here."""
     out = {}
     for k, v in kw.items():
         out[k] = v if k in ("pool", "checkpoint_callback") else copy.deepcopy(v)
+    fc = out.get("flow_config")
+    if isinstance(fc, dict) and isinstance(fc.get("distribution"), str) and fc["distribution"].startswith("<trainable-normal-instance:"):
+        fc["distribution"] = trainable_normal(int(fc["distribution"].split(":")[1].rstrip(">")))
     return out
 
 
@@ -578,6 +606,9 @@ def ins_lattice(seed, quick, resume_subsets=True):
         assigns.append({"flow_config": {"distribution": "lars"}})
         assigns.append({"flow_config": {"distribution": "mvn", "distribution_kwargs": {"var": 2.0}}})
         assigns.append({"flow_config": {"batch_norm_between_layers": True}})
+        # a base distribution passed as an object with trainable parameters: every level owns its own copy
+        assigns.append({"flow_config": {"distribution": "<trainable-normal-instance:2>"}})
+        assigns.append({"flow_config": {"distribution": "<trainable-normal-instance:2>"}, "reset_flow": 2})
         # min_samples larger than the number of samples with a finite likelihood (zero-likelihood region)
         assigns.append({"model": "G2hole", "min_samples": 45, "draw_iid_live": False})
         assigns.append({"model": "G2hole", "min_samples": 45})
